@@ -264,6 +264,17 @@ def run(ctx):
         else:
             xml = '<svg><var v="%s"/><%s text="$v"/></svg>' % (xmlcanon.esc_attr(t), shape)
         docs.append((doc_case('d%d' % di, xml, {'add_auto_styles': False}, {'doc': xml, 'text': t, 'carrier': carrier}), t, carrier))
+    # element content holding an entity reference outside the predefined five, or a bare ampersand: nothing can be substituted,
+    # so the characters as written are the author's text (they must not be dropped)
+    for di in range(60 if quick else 600):
+        words = [rng.choice(['10', 'kg', 'north', '45', 'a', 'Tee', 'x9']) for _ in range(rng.range(1, 3))]
+        k = rng.below(len(words) + 1)
+        words.insert(k, rng.choice(['&nbsp;', '&deg;', '&', '&unknown;', '&copy;']))
+        t = rng.choice(['', ' ']).join(words) if rng.chance(0.5) else ' '.join(words)
+        t = t.strip(' ')
+        shape = rng.choice(['rect xy="1 2" wh="30 20"', 'circle cxy="5 5" r="9"', 'text xy="3 4"'])
+        xml = '<svg><%s>%s</%s></svg>' % (shape, t, shape.split()[0])
+        docs.append((doc_case('u%d' % di, xml, {'add_auto_styles': False}, {'doc': xml, 'text': t, 'carrier': 'content-unknown-entity'}), t.replace('\\', '\\\\'), 'content-unknown-entity'))
     dres = lib.run_impl([d[0] for d in docs])
     for c, t, carrier in docs:
         st['evaluations'] += 1; st['distinct_nontrivial'] += 1
